@@ -41,15 +41,16 @@ type Result struct {
 
 // Ctx is handed to a slice.
 type Ctx struct {
-	Seed   int64
-	Tier   string
-	N      int
-	Out    string
-	Rng    *rand.Rand
-	Res    *Result
-	Replay string // path of a replay file, when replaying
-	Faults bool   // inject message faults (duplicate request, dropped response)
-	seen   map[string]bool
+	Seed     int64
+	Tier     string
+	N        int
+	Out      string
+	Rng      *rand.Rand
+	Res      *Result
+	Replay   string // path of a replay file, when replaying
+	Faults   bool   // inject message faults (duplicate request, dropped response)
+	DbFaults bool   // make storage commands fail
+	seen     map[string]bool
 }
 
 func (c *Ctx) Count(k string)         { c.Res.Distribution[k]++ }
@@ -125,6 +126,7 @@ func main() {
 	out := flag.String("out", "", "output directory")
 	replay := flag.String("replay", "", "replay file")
 	faults := flag.Bool("faults", false, "inject message faults")
+	dbfaults := flag.Bool("dbfaults", false, "make storage commands fail")
 	flag.Parse()
 	if flag.NArg() < 1 {
 		names := []string{}
@@ -147,7 +149,7 @@ func main() {
 	}
 	_ = os.MkdirAll(*out, 0o755)
 	res := &Result{Slice: name, Seed: *seed, Tier: *tier, Distribution: map[string]int{}, Samples: []interface{}{}, Violations: []Violation{}, CaseFiles: []string{}}
-	c := &Ctx{Seed: *seed, Tier: *tier, N: *n, Out: *out, Rng: rand.New(rand.NewSource(*seed)), Res: res, Replay: *replay, Faults: *faults, seen: map[string]bool{}}
+	c := &Ctx{Seed: *seed, Tier: *tier, N: *n, Out: *out, Rng: rand.New(rand.NewSource(*seed)), Res: res, Replay: *replay, Faults: *faults, DbFaults: *dbfaults, seen: map[string]bool{}}
 	fn(c)
 	b, _ := json.MarshalIndent(res, "", " ")
 	if err := os.WriteFile(filepath.Join(*out, name+".json"), b, 0o644); err != nil {
